@@ -66,7 +66,7 @@ def check_layer(case):
     fails = []
     info = {"exists": exists, "outcome": None}
     try:
-        A = libif.guarded(lambda: L.fl.find_local_clifford_layer(R, S, graph), 30)
+        A = libif.guarded(lambda: L.fl.find_local_clifford_layer(R, S, graph), 12)
     except (libif.GuardTimeout, MemoryError):
         info["outcome"] = "inconclusive:resource-guard"
         return fails, info
@@ -175,6 +175,13 @@ def strategy():
                 if x == 0 and z == 0:
                     x = 1
                 ops.append([x, z])
+            if n >= 5:
+                # the library's search enumerates 16x more combinations for every qubit no operator acts on (27 s for four copies
+                # of X_0 on six qubits): on 5-6 qubits make every qubit acted on; idle qubits are covered on n <= 4 and by the
+                # planted subsets
+                for qq in range(n):
+                    if not any(((o[0] | o[1]) >> qq) & 1 for o in ops):
+                        ops[qq % m][draw(st.integers(0, 1))] |= 1 << qq
         else:
             gens = lc.graph_state_gens(n, gid)
             layer = []
@@ -277,7 +284,7 @@ def run(ctx):
         for chunk in fw.split(members.orbit_reps(n), 8 if n == 5 else 48):
             args.append(("members", n, chunk, (2 if n == 5 else 1) if q else (8 if n == 5 else 4), ctx.seed, dl, q and n == 6))
     for i in range(16):
-        args.append(("hyp", ctx.seed * 1000 + i, 40 if q else 1500, dl))
+        args.append(("hyp", ctx.seed * 1000 + i, 100 if q else 2500, dl))
     rep = fw.run_shards(ctx, "props.c16", "shard", args)
     rep.extra["exhaustive"] = False
     rep.extra["exhaustive_part"] = ("all operator sets with m<=2 on 2 qubits; every group n<=3 against every graph" +
